@@ -67,4 +67,4 @@ end Env
     body ends the same way -/
 def Spec.C09 (c : Env.Case) (obs : List Env.Obs × Env.Outcome) : Bool :=
   let r := (Env.refProg c.ash c.prog (Env.initFrame c)).1
-  obs.1.map (fun o => (o.kind, o.val)) == r.1 && obs.2 == r.2
+  decide (obs.1.map (fun o => (o.kind, o.val)) = r.1) && decide (obs.2 = r.2)
